@@ -351,4 +351,229 @@ theorem splitFirst_head_notin {P x y : Str} {p0 : Char} {P' : Str} (hP : P = p0 
         exact hx (by rw [h1, ← h2.1]; simp)
   · omega
 
+/-! ### id strings -/
+
+/-- characters of a marker id: digits and `-` -/
+def IdChars (m : Str) : Prop := ∀ c ∈ m, c.isDigit = true ∨ c = '-'
+
+theorem idChars_natStr (n : Nat) : IdChars (natStr n) := by
+  intro c hc
+  unfold natStr at hc
+  rw [Nat.toList_repr] at hc
+  exact Or.inl (Nat.isDigit_of_mem_toDigits (by decide) (by decide) hc)
+
+theorem idChars_pieces : ∀ (I : List Nat), IdChars (piecesStr I)
+  | [] => by intro c hc; simp [piecesStr] at hc
+  | p :: ps => by
+    intro c hc
+    simp only [piecesStr, List.mem_append, List.mem_cons] at hc
+    rcases hc with hc | hc | hc
+    · exact idChars_natStr p c hc
+    · exact Or.inr hc
+    · exact idChars_pieces ps c hc
+
+theorem IdChars.not_mem {m : Str} (h : IdChars m) {c : Char} (hd : c.isDigit = false) (hc : c ≠ '-') : c ∉ m := by
+  intro hm
+  rcases h c hm with h | h
+  · rw [h] at hd; cases hd
+  · exact hc h
+
+/-- two texts that agree up to their first character outside an alphabet -/
+theorem first_sep {A : Char → Prop} : ∀ {x y u v : Str} {p q : Char}, (∀ c ∈ x, A c) → (∀ c ∈ y, A c) → ¬ A p → ¬ A q →
+    x ++ p :: u = y ++ q :: v → x = y ∧ p = q ∧ u = v := by
+  intro x
+  induction x with
+  | nil =>
+    intro y u v p q _ hy hp _ he
+    cases y with
+    | nil => simp at he; exact ⟨rfl, he.1, he.2⟩
+    | cons d y =>
+      simp at he
+      exact absurd (he.1 ▸ hy d (by simp)) hp
+  | cons c x ih =>
+    intro y u v p q hx hy hp hq he
+    cases y with
+    | nil =>
+      simp at he
+      exact absurd (he.1 ▸ hx c (by simp)) hq
+    | cons d y =>
+      simp only [List.cons_append, List.cons.injEq] at he
+      obtain ⟨h1, h2, h3⟩ := ih (fun c hc => hx c (by simp [hc])) (fun c hc => hy c (by simp [hc])) hp hq he.2
+      exact ⟨by rw [he.1, h1], h2, h3⟩
+
+theorem natStr_inj {a b : Nat} (h : natStr a = natStr b) : a = b := by
+  unfold natStr at h
+  rw [Nat.toList_repr, Nat.toList_repr] at h
+  have := congrArg (fun l => Nat.ofDigitChars 10 l 0) h
+  simpa [Nat.ofDigitChars_ten_toDigits] using this
+
+theorem pieces_inj : ∀ {I J : List Nat}, piecesStr I = piecesStr J → I = J
+  | [], [] => fun _ => rfl
+  | [], q :: qs => by
+    intro h
+    simp only [piecesStr] at h
+    have := congrArg List.length h
+    simp at this
+  | p :: ps, [] => by
+    intro h
+    simp only [piecesStr] at h
+    have := congrArg List.length h
+    simp at this
+  | p :: ps, q :: qs => by
+    intro h
+    simp only [piecesStr] at h
+    have hA : ∀ n, ∀ c ∈ natStr n, c.isDigit = true := by
+      intro n c hc
+      unfold natStr at hc
+      rw [Nat.toList_repr] at hc
+      exact Nat.isDigit_of_mem_toDigits (by decide) (by decide) hc
+    obtain ⟨h1, _, h3⟩ := first_sep (A := fun c => c.isDigit = true) (hA p) (hA q) (by decide) (by decide) h
+    rw [natStr_inj h1, pieces_inj h3]
+
+
+/-! ### the concrete patterns -/
+
+theorem tagState_snoc_gt (o : Bool) (s : Str) : tagState o (s ++ ['>']) = false := by
+  rw [tagState_append]; simp [tagState]
+
+theorem ltPat_gt {r0 : Str} (h1 : '<' ∉ r0) (h2 : '>' ∉ r0) : LtPat ('<' :: (r0 ++ ['>'])) := by
+  refine ⟨r0 ++ ['>'], rfl, by simp [h1], ?_⟩
+  intro u r' he
+  rcases append_split he with ⟨c, g1, g2⟩ | ⟨c, g1, g2⟩
+  · cases c with
+    | nil => simp at g2; exact g2
+    | cons d c =>
+      exfalso
+      have hl := congrArg List.length g2
+      simp at hl
+  · cases c with
+    | nil => simp at g2; exact g2
+    | cons d c =>
+      exfalso
+      simp only [List.cons_append, List.cons.injEq] at g2
+      exact h2 (by rw [g1, ← g2.1]; simp)
+
+theorem ltPat_noGt {r : Str} (h1 : '<' ∉ r) (h2 : '>' ∉ r) : LtPat ('<' :: r) := by
+  refine ⟨r, rfl, h1, ?_⟩
+  intro u r' he
+  exact absurd (he ▸ (by simp : '>' ∈ u ++ '>' :: r')) h2
+
+def tplOpen : Str := "<template id=\"".toList
+def tplClose : Str := "</template>".toList
+def scriptClose : Str := "</script>".toList
+def markPre : Str := "<!--s-".toList
+
+theorem opening_eq (m : Str) : opening m = '<' :: (("!--s-".toList ++ m ++ "o--".toList) ++ ['>']) := by
+  simp [opening]
+theorem closing_eq (m : Str) : closing m = '<' :: (("!--s-".toList ++ m ++ "c--".toList) ++ ['>']) := by
+  simp [closing]
+
+theorem IdChars.lt {m : Str} (h : IdChars m) : '<' ∉ m := h.not_mem (by decide) (by decide)
+theorem IdChars.gt {m : Str} (h : IdChars m) : '>' ∉ m := h.not_mem (by decide) (by decide)
+
+theorem ltPat_opening {m : Str} (h : IdChars m) : LtPat (opening m) := by
+  rw [opening_eq]; exact ltPat_gt (by simp [h.lt]) (by simp [h.gt])
+theorem ltPat_closing {m : Str} (h : IdChars m) : LtPat (closing m) := by
+  rw [closing_eq]; exact ltPat_gt (by simp [h.lt]) (by simp [h.gt])
+theorem ltPat_tplOpen : LtPat tplOpen := ltPat_noGt (r := "template id=\"".toList) (by decide) (by decide)
+theorem ltPat_tplClose : LtPat tplClose := ltPat_gt (r0 := "/template".toList) (by decide) (by decide)
+theorem ltPat_scriptClose : LtPat scriptClose := ltPat_gt (r0 := "/script".toList) (by decide) (by decide)
+
+theorem tagClosed_opening (m : Str) : tagClosed (opening m) = true := by
+  unfold tagClosed; rw [opening_eq, ← List.cons_append, tagState_snoc_gt]; rfl
+theorem tagClosed_closing (m : Str) : tagClosed (closing m) = true := by
+  unfold tagClosed; rw [closing_eq, ← List.cons_append, tagState_snoc_gt]; rfl
+
+/-- in a text with a single `<` (its first character) a `<`-headed pattern can only occur as a prefix -/
+theorem free_single {P s t r : Str} (hs : s = '<' :: t) (ht : '<' ∉ t) (hP : P = '<' :: r)
+    (hn : ∀ b, s ≠ P ++ b) : Free P s := by
+  intro a b he
+  cases a with
+  | nil => exact hn b (by simpa using he)
+  | cons c a =>
+    rw [hs, hP] at he
+    simp only [List.cons_append, List.cons.injEq] at he
+    exact ht (by rw [he.2]; simp)
+
+theorem opening_single (m : Str) (h : IdChars m) : ∃ t, opening m = '<' :: t ∧ '<' ∉ t :=
+  ⟨_, opening_eq m, by simp [h.lt]⟩
+theorem closing_single (m : Str) (h : IdChars m) : ∃ t, closing m = '<' :: t ∧ '<' ∉ t :=
+  ⟨_, closing_eq m, by simp [h.lt]⟩
+
+/-- marker strings with different ids, or of different kinds, are not prefixes of one another -/
+theorem marker_not_prefix {m m' : Str} (hm : IdChars m) (hm' : IdChars m') {k k' : Char} {tl tl' : Str}
+    (hk : k.isDigit = false ∧ k ≠ '-') (hk' : k'.isDigit = false ∧ k' ≠ '-') (hne : m ≠ m' ∨ k ≠ k') (b : Str) :
+    markPre ++ m' ++ k' :: tl' ≠ (markPre ++ m ++ k :: tl) ++ b := by
+  intro he
+  have he' : m' ++ k' :: tl' = m ++ k :: (tl ++ b) := by
+    have : markPre ++ (m' ++ k' :: tl') = markPre ++ (m ++ k :: (tl ++ b)) := by simpa using he
+    exact List.append_cancel_left this
+  have := first_sep (A := fun c => c.isDigit = true ∨ c = '-') hm' hm
+    (by simp [hk'.1, hk'.2]) (by simp [hk.1, hk.2]) he'
+  rcases hne with hne | hne
+  · exact hne this.1.symm
+  · exact hne this.2.1.symm
+
+theorem opening_form (m : Str) : opening m = markPre ++ m ++ 'o' :: "-->".toList := by simp [opening, markPre]
+theorem closing_form (m : Str) : closing m = markPre ++ m ++ 'c' :: "-->".toList := by simp [closing, markPre]
+
+theorem free_opening_opening {m m' : Str} (hm : IdChars m) (hm' : IdChars m') (hne : m ≠ m') :
+    Free (opening m) (opening m') := by
+  obtain ⟨t, ht, hnt⟩ := opening_single m' hm'
+  refine free_single ht hnt (opening_eq m) ?_
+  intro b
+  rw [opening_form, opening_form]
+  exact marker_not_prefix hm hm' (by decide) (by decide) (Or.inl hne) b
+
+theorem free_opening_closing {m m' : Str} (hm : IdChars m) (hm' : IdChars m') : Free (opening m) (closing m') := by
+  obtain ⟨t, ht, hnt⟩ := closing_single m' hm'
+  refine free_single ht hnt (opening_eq m) ?_
+  intro b
+  rw [opening_form, closing_form]
+  exact marker_not_prefix hm hm' (by decide) (by decide) (Or.inr (by decide)) b
+
+theorem free_closing_opening {m m' : Str} (hm : IdChars m) (hm' : IdChars m') : Free (closing m) (opening m') := by
+  obtain ⟨t, ht, hnt⟩ := opening_single m' hm'
+  refine free_single ht hnt (closing_eq m) ?_
+  intro b
+  rw [opening_form, closing_form]
+  exact marker_not_prefix hm hm' (by decide) (by decide) (Or.inr (by decide)) b
+
+theorem free_closing_closing {m m' : Str} (hm : IdChars m) (hm' : IdChars m') (hne : m ≠ m') :
+    Free (closing m) (closing m') := by
+  obtain ⟨t, ht, hnt⟩ := closing_single m' hm'
+  refine free_single ht hnt (closing_eq m) ?_
+  intro b
+  rw [closing_form, closing_form]
+  exact marker_not_prefix hm hm' (by decide) (by decide) (Or.inl hne) b
+
+/-- patterns whose second character is not `!` do not occur in a marker -/
+theorem free_other_marker {P r : Str} {d : Char} (hP : P = '<' :: d :: r) (hd : d ≠ '!') (s : Str)
+    (hs : (∃ m, IdChars m ∧ s = opening m) ∨ (∃ m, IdChars m ∧ s = closing m)) : Free P s := by
+  rcases hs with ⟨m, hm, rfl⟩ | ⟨m, hm, rfl⟩
+  · obtain ⟨t, ht, hnt⟩ := opening_single m hm
+    refine free_single ht hnt (r := d :: r) hP ?_
+    intro b he
+    rw [opening_eq, hP] at he
+    simp at he
+    exact hd he.1.symm
+  · obtain ⟨t, ht, hnt⟩ := closing_single m hm
+    refine free_single ht hnt (r := d :: r) hP ?_
+    intro b he
+    rw [closing_eq, hP] at he
+    simp at he
+    exact hd he.1.symm
+
+/-- the found pattern right at the front -/
+theorem splitFirst_here (P y : Str) (_hP : P ≠ []) : splitFirst P (P ++ y) = some ([], y) := by
+  apply splitFirst_eq (a := []) (by simp)
+  intro _ _ _; exact Nat.zero_le _
+
+/-- skip a tag-closed piece free of the pattern, then find it -/
+theorem splitFirst_after {P x y : Str} (hP : LtPat P) (hx : tagClosed x = true) (fx : Free P x) :
+    splitFirst P (x ++ P ++ y) = some (x, y) := by
+  have hne : P ≠ [] := by obtain ⟨r, rfl, _⟩ := hP; simp
+  rw [List.append_assoc, splitFirst_skip hP hx fx, splitFirst_here P y hne]
+  simp
+
 end Leptos.Stream
